@@ -2,6 +2,8 @@
 base strings, known-finding signatures (predicates over a failing case)."""
 
 KIND_NAMES = {
+    502: 'C05/osync: open flags of internal/storage/filestorage files (created and reopened) read back from /proc/self/fdinfo',
+    501: 'session/crash: crash at a chosen instant of a download history (after any handler, at the entry/exit of any storage write of a piece), optional loss of files, restart of a fresh session on that resume database and storage image, vs Life.restart_bits + monitor',
     401: 'session/life: start/stop/verify commands interleaved with allocation, verification, piece-write and stop-announce results in any order and with changes to the files while stopped, vs Life.v (exact) + truthfulness monitor',
     101: 'session/leech: download path of the stepped event loop (message, write-result, snub, disconnect handlers) under scripted honest/hostile peers vs Leech.v (piece assignments validated, everything else predicted)',
     102: 'C01/piecedl: piecedownloader vs PieceDl.v',
@@ -57,6 +59,11 @@ PROPS = {
         'kinds': {401: {'quick': 1500, 'thorough': 40000}},
         'trusted': ['the dispatch of torrent.run() and of the command channels is mirrored by hand in VLoop (Start/Stop/Verify call the handlers the loop would call)', 'the harness reports which files exist and which pieces on disk equal the torrent content (environment data of the model)'],
         'assumptions': ['observed "piece i downloaded" events are legal (torrent downloading, piece not yet held): checked per case by the model'],
+    },
+    'C05': {
+        'kinds': {501: {'quick': 1500, 'thorough': 40000}, 502: {'quick': 16, 'thorough': 64}},
+        'trusted': ['bbolt: a resume update is one atomic transaction; the database reopens to the state of some completed update (the harness copies the database file only between handlers and at storage-write boundaries, never inside a transaction)', 'O_SYNC of internal/storage/filestorage: a returned write is durable (the scenarios use the in-memory storage; the open flags of the real storage are outside this check)', 'the harness reports which files exist and which pieces on disk equal the torrent content'],
+        'assumptions': ['only the client writes to the files during the history (external changes are C04)'],
     },
     'C08': {
         'kinds': {1102: {'quick': 2500, 'thorough': 60000}, 1103: {'quick': 48, 'thorough': 600}, 101: {'quick': 1500, 'thorough': 40000}, 1303: {'quick': 1500, 'thorough': 40000}, 303: {'quick': 160, 'thorough': 2400}},
@@ -175,4 +182,11 @@ def _sig_external_corruption(c):
             return True
     return False
 
-SIGNATURES = {'K-C04-g': _sig_external_corruption}
+def _sig_alloc_window(c):
+    # K-C05-a: crash between the allocator re-creating lost files and the loop handling its result
+    if c.get('kind') != 501:
+        return False
+    inp = c['in'] if isinstance(c['in'], list) else [int(x) for x in str(c['in']).split()]
+    return len(inp) > 3 and inp[-1] == 1
+
+SIGNATURES = {'K-C04-g': _sig_external_corruption, 'K-C05-a': _sig_alloc_window}
